@@ -353,45 +353,52 @@ theorem podTask_name {p : PodObj} {t : Task} (h : podTask p = some t) : t.name =
   · cases h
   · simp only [Option.some.injEq] at h; rw [← h]
 
-theorem liveGetTask_name {s : Sys} {n : String} {t : Task} (h : liveGetTask s n = some t) : t.name = n := by
+theorem liveGetTask_name {s : Sys} {jo : JobObj} {n : String} {t : Task} (h : liveGetTask s jo n = some t) :
+    t.name = n := by
   unfold liveGetTask at h
-  split at h
-  · rename_i p hp
-    rw [podTask_name h, (findPod_some hp).2]
-  · cases h
-
-/-- a task found for a ref (cache, else live GET) carries the ref's name -/
-theorem getTaskForRef_name {s : Sys} {ref : TaskRef} {t : Task}
-    (h : getTaskForRef s ref = some t) : t.name = ref.name := by
-  unfold getTaskForRef at h
   split at h
   · rename_i p hp
     split at h
     · cases h
-    · rename_i t' ht'
-      split at h
-      · cases h; rw [podTask_name ht', (findPod_some hp).2]
+    · rw [podTask_name h, (findPod_some hp).2]
+  · cases h
+
+/-- a task found for a ref (cache, else live GET) carries the ref's name -/
+theorem getTaskForRef_name {s : Sys} {jo : JobObj} {ref : TaskRef} {t : Task}
+    (h : getTaskForRef s jo ref = some t) : t.name = ref.name := by
+  unfold getTaskForRef at h
+  split at h
+  · rename_i p hp
+    split at h
+    · split at h
+      · cases h
       · exact liveGetTask_name h
+    · split at h
+      · cases h
+      · rename_i t' ht'
+        split at h
+        · cases h; rw [podTask_name ht', (findPod_some hp).2]
+        · exact liveGetTask_name h
   · split at h
     · cases h
     · exact liveGetTask_name h
 
-theorem tasksForRefs_name {s : Sys} {refs : List TaskRef} {t : Task}
-    (h : t ∈ tasksForRefs s refs) : ∃ r ∈ refs, t.name = r.name := by
+theorem tasksForRefs_name {s : Sys} {jo : JobObj} {refs : List TaskRef} {t : Task}
+    (h : t ∈ tasksForRefs s jo refs) : ∃ r ∈ refs, t.name = r.name := by
   unfold tasksForRefs at h
   obtain ⟨r, hr, hg⟩ := List.mem_filterMap.mp h
   exact ⟨r, hr, getTaskForRef_name hg⟩
 
-theorem getTaskForRefConfirmed_name {s : Sys} {ref : TaskRef} {t : Task}
-    (h : getTaskForRefConfirmed s ref = some t) : t.name = ref.name := by
+theorem getTaskForRefConfirmed_name {s : Sys} {jo : JobObj} {ref : TaskRef} {t : Task}
+    (h : getTaskForRefConfirmed s jo ref = some t) : t.name = ref.name := by
   unfold getTaskForRefConfirmed at h
   split at h
   · rename_i t' ht'
     cases h; exact getTaskForRef_name ht'
   · exact liveGetTask_name h
 
-theorem tasksForRefsConfirmed_name {s : Sys} {refs : List TaskRef} {t : Task}
-    (h : t ∈ tasksForRefsConfirmed s refs) : ∃ r ∈ refs, t.name = r.name := by
+theorem tasksForRefsConfirmed_name {s : Sys} {jo : JobObj} {refs : List TaskRef} {t : Task}
+    (h : t ∈ tasksForRefsConfirmed s jo refs) : ∃ r ∈ refs, t.name = r.name := by
   unfold tasksForRefsConfirmed at h
   obtain ⟨r, hr, hg⟩ := List.mem_filterMap.mp h
   exact ⟨r, hr, getTaskForRefConfirmed_name hg⟩
@@ -401,9 +408,9 @@ live GET), or the task of a pod of the pod cache that is labelled with and contr
 and is neither found nor recorded -/
 theorem mem_finalizerTasks (s : Sys) (jo : JobObj) (rj : Job) (t : Task) :
     t ∈ finalizerTasks s jo rj ↔
-      t ∈ tasksForRefsConfirmed s rj.status.tasks ∨
+      t ∈ tasksForRefsConfirmed s jo rj.status.tasks ∨
       ∃ p ∈ s.podCache, podTask p = some t ∧ p.jobLabel = some jo.uid ∧ p.ownerUid = some jo.uid ∧
-        (∀ t' ∈ tasksForRefsConfirmed s rj.status.tasks, t'.name ≠ p.pod.name) ∧
+        (∀ t' ∈ tasksForRefsConfirmed s jo rj.status.tasks, t'.name ≠ p.pod.name) ∧
         (∀ r ∈ rj.status.tasks, r.name ≠ p.pod.name) := by
   unfold finalizerTasks
   exact mem_adoptUnrecordedTasks s _ _ t
@@ -581,5 +588,42 @@ theorem syncCreateTasks_ext (s : Sys) (jo : JobObj) (rj : Job) (tasks : List Tas
     simp only [Option.some.injEq, Prod.mk.injEq] at h
     obtain ⟨rfl, rfl⟩ := h
     exact ⟨SpecLe.refl _, fun h => absurd h hcan⟩
+
+/-- the task list after the creation step: the tasks it was given, plus tasks of pods controlled by
+the Job (the pod a create call of the pass just made, or an adopted pod of the pod cache) -/
+theorem syncCreateTasks_members (s : Sys) (jo : JobObj) (rj : Job) (tasks : List Task) (s1 : Sys) (rj1 : Job)
+    (tasks1 : List Task) (h : syncCreateTasks s jo rj tasks = (s1, some (rj1, tasks1))) :
+    ∀ t ∈ tasks1, t ∈ tasks ∨ ∃ p, podTask p = some t ∧ p.ownerUid = some jo.uid := by
+  obtain ⟨l, _, hoff, hdone, _, hres⟩ := syncCreateTasks_ext s jo rj tasks
+  have adopt : ∀ t ∈ adoptUnrecordedTasks s jo tasks, t ∈ tasks ∨ ∃ p, podTask p = some t ∧ p.ownerUid = some jo.uid := by
+    intro t ht
+    rcases (mem_adoptUnrecordedTasks s jo tasks t).mp ht with h' | ⟨p, _, hpt, _, ho, _⟩
+    · exact Or.inl h'
+    · exact Or.inr ⟨p, hpt, ho⟩
+  by_cases hcan : canCreateTask rj = true
+  · by_cases hcomp : (refreshedSummary s rj tasks).complete = true
+    · rw [hdone hcan hcomp] at h
+      simp only [Prod.mk.injEq, Option.some.injEq] at h
+      obtain ⟨_, _, rfl⟩ := h
+      exact adopt
+    · have hcf : (refreshedSummary s rj tasks).complete = false := by simpa using hcomp
+      cases hreqs : computeMissingIndexesForCreation s.d rj (rj.indexes s.d) with
+      | none =>
+        rw [syncCreateTasks_eq] at h
+        simp [hcan, hcomp, hreqs] at h
+      | some reqs =>
+        obtain ⟨_, hx⟩ := hres rj1 tasks1 (by rw [h])
+        obtain ⟨_, _, s1', l1, _, _, extra, hex, hor⟩ := hx hcan hcf reqs hreqs
+        intro t ht
+        rw [hex] at ht
+        rcases List.mem_append.mp ht with h' | h'
+        · exact Or.inl h'
+        · obtain ⟨c, _, s0, s1'', _, _, p, hpt, _, ho, _⟩ := hor t h'
+          exact Or.inr ⟨p, hpt, ho⟩
+  · have hcf : canCreateTask rj = false := by simpa using hcan
+    rw [hoff hcf] at h
+    simp only [Prod.mk.injEq, Option.some.injEq] at h
+    obtain ⟨_, _, rfl⟩ := h
+    exact adopt
 
 end Furiko.JobCtlPlan
